@@ -23,7 +23,7 @@ func (c16) Rule() string {
 }
 func (c16) ProcOpts() Proc { return Proc{RlimitAS: 4 << 30, MaxStack: 64 << 20} }
 
-var c16witness = []string{"zero", "ptr-zero", "empty", "one", "full", "cyclic", "nil-elems"}
+var c16witness = []string{"zero", "ptr-zero", "empty", "one", "full", "cyclic", "nil-elems", "iface-cycle"}
 
 // ClashNode: a self-referential type that also holds a type with the SAME SHORT NAME as another
 // type from another package (maps are keyed by bare type name, so only termination is judged here)
@@ -151,6 +151,29 @@ func witness(e zoo.Entry, kind string, seed int64) (interface{}, bool) {
 	case "nil-elems":
 		// containers that HAVE elements, all of them nil pointers (make([]*T, n))
 		cfg.NilProb, cfg.MaxLen, cfg.MinLen, cfg.MaxDepth = 1, 3, 2, 3
+	case "iface-cycle":
+		// generic containers that reach themselves through interface values (an attribute tree
+		// whose children link back to the root): the walk must terminate on them as well
+		l := []interface{}{int32(1), nil, "x"}
+		l[1] = l
+		root := map[string]interface{}{"name": "root"}
+		child := map[string]interface{}{"parent": root}
+		root["kids"] = []interface{}{child, l}
+		gm := map[interface{}]interface{}{"k": int32(1)}
+		gm["self"] = gm
+		switch e.Name {
+		case "SlIface":
+			return &zoo.SlIface{V: []interface{}{root, l}}, true
+		case "MpStrAny":
+			return &zoo.MpStrAny{M: root}, true
+		case "MpIface":
+			return &zoo.MpIface{M: gm}, true
+		case "top:[]interface {}":
+			return l, true
+		case "top:map[interface {}]interface {}":
+			return gm, true
+		}
+		return nil, false
 	}
 	g := zoo.NewGen(seed, cfg)
 	g.Share = share
@@ -379,6 +402,38 @@ func (c16) Run(c Case, env *Env) Result {
 					env.Viol(&res, Violation{Class: "second-value:mismatch", Features: uf, Detail: d, Case: cc, Input: describe(uv)})
 				} else {
 					res.Count("second_values_roundtripped", 1)
+				}
+			}
+			// the name map extracted from the WITNESS together with the type map taken from the TYPE:
+			// the two extractions must agree on every wire name (types with custom names are registered
+			// by TypeMapOf under their Go names only: not judged here)
+			anyCustom := false
+			for st := range structs {
+				if _, ok := customName(st); ok {
+					anyCustom = true
+				}
+			}
+			for sl := range slices {
+				if _, ok := customName(sl); ok {
+					anyCustom = true
+				}
+			}
+			if u == 0 && e1 == nil && e2 == nil && !e.Has("custom") && !anyCustom && e.Type.Kind() == reflect.Struct {
+				var dec2 interface{}
+				var e3 error
+				pi, _ := Guard(func() { dec2, e3 = hessian.ToObject(wire, hessian.TypeMapOf(e.Type)) })
+				mf := append(append([]string{"names-from-value+types-from-type"}, feats...), ufeats...)
+				switch {
+				case pi != nil:
+					env.Viol(&res, Violation{Class: "mixed-maps:panic", Features: mf, Detail: pi.Msg, Case: cc, Input: describe(uv)})
+				case e3 != nil:
+					env.Viol(&res, Violation{Class: "mixed-maps:dec-error", Features: mf, Detail: "encoded with NameMapFrom(witness), decoded with TypeMapOf(type): " + e3.Error(), Case: cc, Input: describe(uv)})
+				default:
+					if d := zoo.Equiv(uv, dec2, zoo.EquivOpts{}); d != "" {
+						env.Viol(&res, Violation{Class: "mixed-maps:mismatch", Features: mf, Detail: d, Case: cc, Input: describe(uv)})
+					} else {
+						res.Count("roundtrips_with_names_from_value_and_types_from_type", 1)
+					}
 				}
 			}
 		}
